@@ -228,6 +228,12 @@ def r05_11(ctx):
 
 
 def run(ctx):
+    from .sweep import r05_13 as _r05_13, r05_14 as _r05_14
+    _r05_13(ctx)
+    _r05_14(ctx)
+    from .sweep import r01_17 as _r01_17c
+    from ..report import Only as _OnlyS5
+    _r01_17c(_OnlyS5(ctx, ('on_hard_timeout:',), floor=1, doc='the hard-limit failure is a record of a live TimeLimitExceeded'), 'R05.12')
     # a worker told to exit by the hard limit takes no further job (borrowed from C08)
     from .c08 import r08_11 as _r08_11
     from ..report import Only as _Only5
